@@ -219,6 +219,8 @@ long long strtoll(const char *nptr, char **endptr, int base)
     if (q.W > TWO63 - 1) { cv_errno = 34; return 9223372036854775807LL; }
     return (long long)q.W;
 }
+/* strtol: on this LP64 target long == long long, so C11 7.22.1.4 gives it exactly strtoll's behaviour (assumed likewise) */
+long strtol(const char *nptr, char **endptr, int base) { return (long)strtoll(nptr, endptr, base); }
 int atoi(const char *nptr)
 {
     const int saved = cv_errno;
@@ -310,8 +312,8 @@ void h_parseint(void)
     __CPROVER_assert(!(r == 0 && len > 2), "reach: rejected a non-number");
     __CPROVER_assert(!(r == 0 && len == 0), "reach: rejected the empty string");
 #else
-    __CPROVER_assert(!(r != 0 && value == 1), "reach: out-of-range digits accepted as 1");
-    __CPROVER_assert(!(r != 0 && q.K == 10), "reach: a 10-digit out-of-range value accepted");
+    __CPROVER_assert(!(r == 0 && q.K == 10), "reach: a 10-digit out-of-range value rejected");
+    __CPROVER_assert(!(r == 0 && q.K > 19 && q.neg), "reach: a negative value beyond long rejected");
 #endif
 #endif
 }
